@@ -16,6 +16,86 @@ from .symstr import SymStr, chars_of, ceq, simp
 _real_compile = re.compile
 
 
+_SET_CACHE = {}
+_CAT_SRC = {sc.CATEGORY_SPACE: r'\s', sc.CATEGORY_NOT_SPACE: r'\S', sc.CATEGORY_DIGIT: r'\d',
+            sc.CATEGORY_NOT_DIGIT: r'\D', sc.CATEGORY_WORD: r'\w', sc.CATEGORY_NOT_WORD: r'\W'}
+
+
+def _esc(c):
+    return '\\U%08x' % c
+
+
+def set_source(items):
+    """pattern text of a character class equivalent to the parsed item list"""
+    out = '['
+    body = ''
+    for op, av in items:
+        if op is sc.NEGATE:
+            out += '^'
+        elif op is sc.LITERAL:
+            body += _esc(av)
+        elif op is sc.RANGE:
+            body += _esc(av[0]) + '-' + _esc(av[1])
+        elif op is sc.CATEGORY and av in _CAT_SRC:
+            body += _CAT_SRC[av]
+        else:
+            raise Unsupported('regex class item %s %s' % (op, av))
+    return out + body + ']'
+
+
+def matched_ranges(src, flags, dom):
+    """the code points of the domain that the one-character pattern `src` matches under `flags`,
+    found by asking the interpreter's own regex engine about every code point (so Unicode case
+    folding and the \\w tables are exactly the running interpreter's)"""
+    from .symstr import _ranges
+    key = (src, flags, dom.name)
+    r = _SET_CACHE.get(key)
+    if r is None:
+        rx = _real_compile(src, flags)
+        m = rx.match
+        universe = range(0x110000) if dom.full else dom.members
+        r = _ranges([c for c in universe if not (0xD800 <= c <= 0xDFFF) and m(chr(c))])
+        _SET_CACHE[key] = r
+    return r
+
+
+def needs_table(items, ic):
+    if ic:
+        return True
+    for op, av in items:
+        if op is sc.CATEGORY and av in (sc.CATEGORY_WORD, sc.CATEGORY_NOT_WORD):
+            return True
+    return False
+
+
+def table_pred(src, flags, c, dom):
+    from .symstr import _in_ranges
+    rs = matched_ranges(src, flags, dom)
+    if isinstance(c, int):
+        return z3.BoolVal(any(lo <= c <= hi for lo, hi in rs))
+    return _in_ranges(c, rs)
+
+
+def annotate(nodes, ic):
+    """parse tree -> list of (op, av, ignorecase) with nested sequences annotated too"""
+    out = []
+    for op, av in nodes:
+        if op is sc.SUBPATTERN:
+            gid, add_flags, del_flags, sub = av
+            extra = (add_flags | del_flags) & ~(re.IGNORECASE | re.UNICODE)
+            if extra:
+                raise Unsupported('inline regex flags %s' % extra)
+            ic2 = (ic or bool(add_flags & re.IGNORECASE)) and not (del_flags & re.IGNORECASE)
+            out.append((op, (gid, 0, 0, annotate(sub, ic2)), ic))
+        elif op is sc.BRANCH:
+            out.append((op, (av[0], [annotate(a, ic) for a in av[1]]), ic))
+        elif op in (sc.MAX_REPEAT, sc.MIN_REPEAT):
+            out.append((op, (av[0], av[1], annotate(av[2], ic)), ic))
+        else:
+            out.append((op, av, ic))
+    return out
+
+
 def class_pred(items, c, dom):
     neg = False
     alts = []
@@ -92,10 +172,12 @@ class SymMatch:
 
 class SymRx:
     def __init__(self, pattern, flags=0):
-        if flags:
-            raise Unsupported('regex flags')
         self.pattern = pattern
-        self.tree = sre_parse.parse(pattern)
+        self.tree = sre_parse.parse(pattern, flags)
+        allf = self.tree.state.flags
+        if allf & ~(re.IGNORECASE | re.UNICODE):
+            raise Unsupported('regex flags %s' % allf)
+        self.nodes = annotate(self.tree, bool(allf & re.IGNORECASE))
         self.names = dict(self.tree.state.groupdict)
         self.ngroups = self.tree.state.groups - 1
 
@@ -112,13 +194,15 @@ class SymRx:
         def m(nodes, i, p, groups, k):
             if i == len(nodes):
                 return k(p, groups)
-            op, av = nodes[i]
+            op, av, ic = nodes[i]
             if op is sc.LITERAL:
-                if p < n and test(ceq(cs[p], av)):
+                pr = table_pred(_esc(av), re.IGNORECASE, cs[p], dom) if (ic and p < n) else None
+                if p < n and test(pr if ic else ceq(cs[p], av)):
                     return m(nodes, i + 1, p + 1, groups, k)
                 return None
             if op is sc.NOT_LITERAL:
-                if p < n and test(znot(ceq(cs[p], av))):
+                pr = znot(table_pred(_esc(av), re.IGNORECASE, cs[p], dom)) if (ic and p < n) else None
+                if p < n and test(pr if ic else znot(ceq(cs[p], av))):
                     return m(nodes, i + 1, p + 1, groups, k)
                 return None
             if op is sc.ANY:
@@ -126,8 +210,13 @@ class SymRx:
                     return m(nodes, i + 1, p + 1, groups, k)
                 return None
             if op is sc.IN:
-                if p < n and test(class_pred(av, cs[p], dom)):
-                    return m(nodes, i + 1, p + 1, groups, k)
+                if p < n:
+                    if needs_table(av, ic):
+                        pr = table_pred(set_source(av), re.IGNORECASE if ic else 0, cs[p], dom)
+                    else:
+                        pr = class_pred(av, cs[p], dom)
+                    if test(pr):
+                        return m(nodes, i + 1, p + 1, groups, k)
                 return None
             if op is sc.AT:
                 if av is sc.AT_END:
@@ -142,8 +231,6 @@ class SymRx:
                 raise Unsupported('regex anchor %s' % av)
             if op is sc.SUBPATTERN:
                 gid, add_flags, del_flags, sub = av
-                if add_flags or del_flags:
-                    raise Unsupported('inline regex flags')
 
                 def k2(p2, g2, p=p, gid=gid):
                     if gid is not None:
@@ -199,7 +286,7 @@ class SymRx:
                 return None
             return (p, g)
 
-        r = m(list(self.tree), 0, pos, {}, final)
+        r = m(self.nodes, 0, pos, {}, final)
         if r is None:
             return None
         return SymMatch(s, pos, r[0], r[1], self.names, self.ngroups)
@@ -275,7 +362,16 @@ def to_z3_regex(pattern, dom=None):
     def rng(lo, hi):
         return z3.Range(chr(lo), chr(hi))
 
-    def cls(items):
+    def table(src, flags):
+        rs = matched_ranges(src, flags, dom)
+        if not rs:
+            return z3.Empty(R)
+        alts = [rng(lo, hi) if lo != hi else ch(lo) for lo, hi in rs]
+        return alts[0] if len(alts) == 1 else z3.Union(*alts)
+
+    def cls(items, ic=False):
+        if needs_table(items, ic):
+            return table(set_source(items), re.IGNORECASE if ic else 0)
         neg = False
         alts = []
         for op, av in items:
@@ -310,15 +406,16 @@ def to_z3_regex(pattern, dom=None):
         return parts[0] if len(parts) == 1 else z3.Concat(*parts)
 
     def tr(node):
-        op, av = node
+        op, av, ic = node
         if op is sc.LITERAL:
-            return ch(av)
+            return table(_esc(av), re.IGNORECASE) if ic else ch(av)
         if op is sc.NOT_LITERAL:
-            return z3.Intersect(z3.AllChar(R), z3.Complement(ch(av)))
+            base = table(_esc(av), re.IGNORECASE) if ic else ch(av)
+            return z3.Intersect(z3.AllChar(R), z3.Complement(base))
         if op is sc.ANY:
             return z3.Intersect(z3.AllChar(R), z3.Complement(ch(10)))
         if op is sc.IN:
-            return cls(av)
+            return cls(av, ic)
         if op is sc.SUBPATTERN:
             return seq(av[3])
         if op is sc.BRANCH:
@@ -341,4 +438,8 @@ def to_z3_regex(pattern, dom=None):
             return None
         raise Unsupported('E2 opcode %s' % op)
 
-    return seq(sre_parse.parse(pattern))
+    tree = sre_parse.parse(pattern)
+    allf = tree.state.flags
+    if allf & ~(re.IGNORECASE | re.UNICODE):
+        raise Unsupported('regex flags %s' % allf)
+    return seq(annotate(tree, bool(allf & re.IGNORECASE)))
